@@ -125,3 +125,46 @@ check('C05', 'proof',
       "an abstract 2-row F >= 0. Reactant coefficient free in C05/kernel (<= 2 reactions) and for single reactions, pinned to -1 (assumed leaf) elsewhere. Round-off cleaning is "
       "part of the claim (flows in [-1e-12, 0) zeroed). correct_atomic_balance / correct_mass_balance (B bullet) not covered. 3 defects repaired.",
       "deductive: sidecar contracts + VC generation by symbolic execution of the real functions on kernel contracts, z3 (QF_NRA) discharge, native replay", "DESIGN.md 4/C05")
+check('C02', 'proof',
+      "For every enumerated structure (Stream l/g/s and MultiStream gl/gls, 2-3 chemicals, up to 3 inlets including the receiver itself, other chemical order, multi-phase "
+      "inlets, Q as keyword or heat object, conserve_phases, 0-2 failing temperature solves) and for all real flows >= 0, T, P > 0, Q, targets and all pure-component models, "
+      "every feasible path of the real code satisfies: mix_from: H' = sum of H_in (read before the call) + Q and P' = min P over the non-empty inlets; separate_out leaves "
+      "H - H(other); the H/h/Hnet/S setters read back the assigned value including both fall-back branches; assigning the current value leaves T unchanged; frames (inlets, "
+      "flows, P). Proof in mode S modulo A-root.",
+      "A-real; A-models (pure-component H, S, Cn uninterpreted functions of (T,P); mixing rules, getters and caches are the real code); A-root / A-root-stay (solve_T_at_HP/SP "
+      "and xsolve_* return T* with property(T*) = target or raise; the real numeric solvers are NOT executed here and the planned mode-B sampling of A-root was not built). Not "
+      "covered: vle=True mixing, multi-phase entropy with more than one chemical per phase. 4 defects repaired.",
+      "deductive: sidecar contracts + VC generation by symbolic execution of the real functions, z3 discharge, native replay", "DESIGN.md 4/C02")
+check('C06', 'proof',
+      "For every enumerated reaction structure (single with symbolic stoichiometry; parallel/series/system with numeric stoichiometry; plain and phase-tagged; mol and wt; stream "
+      "on the reaction's or a reordered package) and ALL real X in [0,1], flows >= 0, T, P > 0, Hf/Hfus/Hvap(T)/MW, Q: Reaction.dH (incl. set members, kinetic reactions) equals "
+      "the statement's 9-case latent-heat table per mol or per mass (checked against the table, not against the code's if-ladder); Stream.Hf/Hnet = sum Hf_k n_k, H + Hf; an "
+      "isothermal reaction changes Hnet - H by sum (dH_i - latent part) * reactant fed; adiabatic_reaction gives Hnet' = Hnet + Q incl. the H-setter's phase-flip fall-back. "
+      "12 real reactions with real models/solver as a bounded stand-in (mode B).",
+      "A-real, A-models (pure-component H, Hvap(T) uninterpreted), A-root, C09 kernel contracts (L0). Chemical data are leaves patched onto private Chemical objects. Structure "
+      "bounded: 3 chemicals, <= 3 reactions. Known finding F-C06-K1 (the literal sentence 'Hnet changes by dH*fed' holds only at the 298.15 K reference state because dH has no "
+      "temperature argument) printed as KNOWN-FINDING. 1 defect repaired.",
+      "deductive: sidecar contracts + VC generation by symbolic execution of the real functions on kernel contracts, z3 discharge, native replay", "DESIGN.md 4/C06")
+check('C03', 'proof',
+      "For every enumerated structure (1-3 chemicals quick / up to 4 thorough, drawn from volatile, gas-locked N2, liquid-locked NaCl/glucose, solid-locked sucrose; every "
+      "initial presence pattern over the phases), for all real flows in (0, 1e6], all specification values and ALL outputs of the numerical solvers within their contracts "
+      "(every solver and property model havoc'ed), the real bookkeeping of VLE (all 11 specification pairs, single-component, clipping, lever-rule and H/S correction branches; "
+      "the error callbacks as invariant-preserving steps, which makes any number of solver iterations sound), LLE (solver and cached branch), SLE and Stream.vlle keeps every "
+      "chemical's total over the phases, keeps all phase flows >= 0 and honours locked phases on every path that returns normally. The same clauses hold as run-time contracts "
+      "on the real solvers over a seeded grid (mode B, 193 quick / 2276 thorough evaluations; not counted as proved).",
+      "A-real; solver contracts (bubble/dew points return P,T>0 and a normalised composition >= 0; IQ_interpolation/aitken only evaluate their callbacks; _solve_v_fixed_point "
+      "arbitrary; shgo and solve_lle_liquid_mol stay inside their boxes; phase_fraction in [0,1]; fixed_point evaluates f on x0 and its own results); property models arbitrary and "
+      "read-only. vlle uses the VLE/LLE contracts proved in C03/vle_TP and C03/lle. Reactive VLE (gas/liquid_conversion) excluded (changes material by design). 1 defect repaired.",
+      "deductive: sidecar contracts + VC generation by symbolic execution of the real bookkeeping with havoc'ed solvers, z3 discharge, native replay; bounded run-time contracts on real solvers", "DESIGN.md 4/C03")
+check('C18', 'proof',
+      "Mode U: 19 port-list operations of thermosteam.network (append, insert, item assignment, pop, remove, replace, clear, empty on AbstractInlets and AbstractOutlets; "
+      "disconnect_sink/source/disconnect on streams) are proved to preserve the well-formedness invariant WF (a stream is listed among a unit's inlets/outlets exactly when that "
+      "unit is its sink/source, no stream occupies two ports, fixed-size lists keep their size, placeholders one-sided; plus the typing invariants) over an ARBITRARY heap of "
+      "units, port lists, streams and placeholders, together with each operation's local effect and allowed exceptions: VCs generated from the AST of the real source on every "
+      "run (calls inlined by receiver class, loop summaries, allocation), discharged by z3 (E-matching, then MBQI). Finite-domain z3 models are turned into real "
+      "thermosteam.network objects to cross-check the symbolic semantics natively and to replay failing obligations. Mode B (bounded, not counted as proved): every operation "
+      "sequence within the stated preconditions to depth 3 (quick) / 4 (thorough) over 3 units and 5 streams incl. slices, pipes, unit-level insert/take_place_of/replace_with, "
+      "and seeded random walks of length 50-60, with WF + local effect + frame checked after every step.",
+      "Mode U trusted base: the heap encoding (engine/vcg/heap.py), dropped `warn` calls; non-negative indices only; _set_streams (slices), extend, unit-level operations, pipe "
+      "notation and Connection.reconnect are covered only by the bounded groups. 5 defects repaired (pop, clear, reverse, AbstractUnit.insert, AbstractUnit.disconnect).",
+      "deductive: AST->SMT VC generation over a symbolic heap (quantified invariant, unbounded heap) with z3; finite-model native replay; bounded exhaustive exploration as stand-in for the rest", "DESIGN.md 4/C18")
